@@ -113,25 +113,24 @@ def fileCopy (fs : Fs) (src dst : Bytes) (failIfExists : Bool) (fault : SfFault)
   match sysOpen fs src { acc := .rdonly } with
   | (fs0, .error _) => (fs0, false, false)
   | (fs0, .ok fd) =>
-    -- lseek(fd, 0, SEEK_END) / SEEK_SET: on a directory the kernel answers some non-negative number
-    let size := if fd.isDir = true then 0 else (fileData fs0 fd.path).length
+    if fd.isDir = true then (fs0, false, false)      -- repaired: fstat + S_ISDIR before the destination is touched
+    else
+    let size := (fileData fs0 fd.path).length
     match sysOpen fs0 dst { acc := .wronly, creat := true, excl := failIfExists, trunc := true } with
     | (fs1, .error _) => (fs1, false, false)
     | (fs1, .ok dest) =>
-      if fd.isDir = true then ((sysUnlink fs1 dst).1, false, fault ≠ .none)   -- sendfile is called and fails (EINVAL or the injected fault)
-      else
-        let count := match fault with
-          | .none => size
-          | .fail => 0
-          | .half => size / 2
-        let fired := fault ≠ .none
-        let (fs2, _, _, r) := sysSendfile fs1 dest fd count
-        let sent : Option Nat := match fault, r with
-          | .fail, _ => Option.none
-          | _, .ok n => some n
-          | _, .error _ => Option.none
-        if sent ≠ some size then ((sysUnlink fs2 dst).1, false, fired)
-        else (fs2, true, fired)
+      let count := match fault with
+        | .none => size
+        | .fail => 0
+        | .half => size / 2
+      let fired := fault ≠ .none
+      let (fs2, _, _, r) := sysSendfile fs1 dest fd count
+      let sent : Option Nat := match fault, r with
+        | .fail, _ => Option.none
+        | _, .ok n => some n
+        | _, .error _ => Option.none
+      if sent ≠ some size then ((sysUnlink fs2 dst).1, false, fired)
+      else (fs2, true, fired)
 
 /-- File::exists (lstat) -/
 def fileExists (fs : Fs) (path : Bytes) : Bool := isOk (sysStat fs path false)
